@@ -460,6 +460,13 @@ func (w *Watcher) Run(ctx context.Context) error {
 						tx, err := w.ethConn.TransactionReceipt(timeout, pLock.message.TxHash)
 						cancel()
 
+						// Run is returning (the supervisor cancelled us after some other error): the
+						// lookup was cut short, the node did not fail to confirm anything. Leave the
+						// pending messages to the next Run instead of counting this as a failure.
+						if err != nil && ctx.Err() != nil {
+							break
+						}
+
 						// If the node returns an error after waiting expectedConfirmation blocks,
 						// it means the chain reorged and the transaction was orphaned. The
 						// TransactionReceipt call is using the same websocket connection than the
